@@ -137,6 +137,16 @@ func (r *Run) opAuthorize(st Step) {
 		con.Scopes = splitNonEmpty(g)
 	}
 	fmt.Sscanf(st.p("auth_ago"), "%d", &con.AuthAgo)
+	hintSubject := ""
+	if h := st.p("hint"); h != "" {
+		// id_token_hint: a previously issued ID token ("same" subject as this consent, or "other")
+		for _, c := range r.L.OfKind("id") {
+			if c.G != nil && ((h == "same") == (c.G.Subject == sub)) {
+				q.Set("id_token_hint", c.Val)
+				hintSubject = c.G.Subject
+			}
+		}
+	}
 	fmt.Sscanf(st.p("preset_id_exp"), "%d", &con.PresetIDExp)
 	if st.p("no_auth_time") != "" {
 		con.NoAuthTime = true
@@ -147,9 +157,93 @@ func (r *Run) opAuthorize(st Step) {
 	if alg := st.p("id_alg"); alg != "" {
 		con.Extra = map[string]interface{}{}
 	}
+	// OpenID Connect request objects (C13): parameters travel in a signed JWT, inline or fetched over the simulated network
+	roState, roVerdict := "", Unspec
+	if ro := st.p("ro"); ro != "" {
+		base := map[string]string{"response_type": q.Get("response_type"), "scope": q.Get("scope"), "redirect_uri": q.Get("redirect_uri"), "nonce": q.Get("nonce")}
+		var jwtStr string
+		jwtStr, roState, roVerdict = r.requestObject(st, cs, base)
+		r.probe("request-object:" + ro)
+		loc := "https://unregistered.sim/request.jwt"
+		if len(cs.RequestURIs) > 0 && ro != "via_uri_unregistered" {
+			loc = cs.RequestURIs[0]
+		}
+		switch ro {
+		case "via_uri", "via_uri_unregistered":
+			r.W.Net.Docs[loc] = jwtStr
+			q.Set("request_uri", loc)
+			if ro == "via_uri_unregistered" || len(cs.RequestURIs) == 0 {
+				roVerdict = MustNot
+			}
+		case "both":
+			r.W.Net.Docs[loc] = jwtStr
+			q.Set("request_uri", loc)
+			q.Set("request", jwtStr)
+			roVerdict = MustNot
+		default:
+			q.Set("request", jwtStr)
+		}
+		if nf := st.p("net"); nf != "" {
+			r.W.Net.Fault[loc] = nf
+		}
+		if nf := st.p("net_jwks"); nf != "" && cs.JWKSURI != "" {
+			if nf == "stale" {
+				r.W.Net.Stale[cs.JWKSURI] = JWKSFor("rsa3") // the cache still holds an old key set; a forced refresh finds the current one
+			} else {
+				r.W.Net.Fault[cs.JWKSURI] = nf
+			}
+		}
+	}
 	res := r.call("authorize", func() *Resp { return r.A.Authorize(q, con) })
+	delete(r.W.Net.Stale, cs.JWKSURI)
+	if roState != "" && !res.Crashed {
+		honoured := res.Params().Get("state") == roState
+		if honoured && roVerdict == MustNot {
+			r.violate("C13", "request-object-honoured", st.p("ro"), "parameters of a request object (%s) that is not signed with a key and algorithm registered for client %s (alg %q) / not pre-registered were honoured", st.p("ro"), cs.ID, cs.RequestObjAlg)
+		}
+		if honoured {
+			r.probe("request-object-honoured:" + st.p("ro"))
+			q.Set("state", roState)
+		}
+	}
 	r.checkAuthorizeResponse(cs, q, res, "", false)
-	r.afterAuthorize(st, cs, res, q, con, challenge, method, verifier)
+	g := r.afterAuthorize(st, cs, res, q, con, challenge, method, verifier)
+	if g != nil {
+		g.Params["auth_ago"] = fmt.Sprint(con.AuthAgo)
+		g.Params["hint_subject"] = hintSubject
+		if con.NoAuthTime {
+			g.Params["no_auth_time"] = "1"
+		}
+		if id := res.Params().Get("id_token"); id != "" {
+			r.checkIDTokenConditions(g, "authorization endpoint")
+		}
+	}
+}
+
+// checkIDTokenConditions (C14): a max_age, prompt=none/login or id_token_hint the session does not satisfy makes issuance fail.
+// Only clear-cut relations are judged (auth_time at least 2 s away from the request time; auth_time is truncated to seconds).
+func (r *Run) checkIDTokenConditions(g *Grant, where string) {
+	var ago int64
+	fmt.Sscanf(g.Params["auth_ago"], "%d", &ago)
+	var maxAge int64
+	fmt.Sscanf(g.Params["max_age"], "%d", &maxAge)
+	prompt := g.Params["prompt"]
+	r.probe("idtoken-conditions-checked")
+	if g.Params["no_auth_time"] != "" {
+		return // without auth_time the library substitutes "now": not pinned down by the statement
+	}
+	if maxAge > 0 && ago >= maxAge+2 {
+		r.violate("C14", "id-token-despite-unsatisfied-condition", "max_age", "an ID token was issued (%s) although the user authenticated %d s before the request and max_age=%d", where, ago, maxAge)
+	}
+	if prompt == "none" && ago <= -2 {
+		r.violate("C14", "id-token-despite-unsatisfied-condition", "prompt=none", "an ID token was issued (%s) for prompt=none although the user authenticated %d s AFTER the request was made", where, -ago)
+	}
+	if prompt == "login" && ago >= 2 {
+		r.violate("C14", "id-token-despite-unsatisfied-condition", "prompt=login", "an ID token was issued (%s) for prompt=login although the user was not re-authenticated (auth_time %d s before the request)", where, ago)
+	}
+	if hs := g.Params["hint_subject"]; hs != "" && hs != g.Subject {
+		r.violate("C14", "id-token-despite-unsatisfied-condition", "id_token_hint", "an ID token was issued (%s) for subject %q although id_token_hint names subject %q", where, g.Subject, hs)
+	}
 }
 
 type authzInfo struct {
@@ -553,9 +647,15 @@ func (r *Run) judgeRedeem(st Step, code *Cred, cs *ClientSpec, res *Resp, sentRe
 
 // mustSucceedOK: positive expectations are only asserted when lifetimes are in a sane relation (DESIGN §4).
 func (r *Run) mustSucceedOK(g *Grant) bool {
+	if g.OpenID && g.Nonce != "" && len(g.Nonce) < r.minEntropy() {
+		return false // the code flow accepts a short nonce at the authorization endpoint and fails when the ID token is minted
+	}
 	if g.OpenID {
 		if !g.PresetIDExp.IsZero() {
 			return false
+		}
+		if g.Params["max_age"] != "" || g.Params["prompt"] != "" || g.Params["hint_subject"] != "" || g.Params["no_auth_time"] != "" || (g.Params["auth_ago"] != "" && g.Params["auth_ago"] != "0") {
+			return false // OIDC conditions (max_age / prompt / id_token_hint / auth_time relation) may legitimately make ID-token issuance fail
 		}
 		if r.W.K.DocIDLife() < r.W.K.DocCodeLife() {
 			return false
@@ -591,6 +691,9 @@ func (r *Run) onRedeemSuccess(st Step, code *Cred, cs *ClientSpec, res *Resp) {
 	at, rt, id := r.recordTokenResponse(res, g, 0, "authorization_code", cs)
 	r.logf("   issued %s", credNames(at, rt, id))
 	r.checkTokenResponse("authorization_code", g, cs, res, at, rt, id, code)
+	if id != nil && g.Params["auth_ago"] != "" {
+		r.checkIDTokenConditions(g, "token endpoint")
+	}
 	r.probeGrant(g, "right after issuance")
 }
 
@@ -774,7 +877,7 @@ func (r *Run) judgeRefresh(st Step, rt *Cred, cs *ClientSpec, res *Resp, mutated
 		if rt.Extra["retry_must"] != "" {
 			r.violate("C18", "retry-after-clean-failure-refused", "refresh_token", "%s: refused (%s) although the earlier storage failure left every record as it was", desc, res.ErrName)
 		} else {
-			r.sanity("%s refused with %s (%v) although every known reason for refusal is absent", desc, res.ErrName, res.Err)
+			r.sanity("%s refused with %s (%v; %s) although every known reason for refusal is absent", desc, res.ErrName, res.Err, truncate(res.Body, 300))
 		}
 		g.Unspec = true
 	}
@@ -873,8 +976,14 @@ func (r *Run) opPassword(st Step) {
 		r.violate("C18", "tokens-despite-storage-failure", "password", "%s: a storage call failed (%s) but the response carries tokens", desc, r.Fault.desc())
 	}
 	g := r.L.NewGrant(&Grant{Client: cs.ID, Origin: "password", Scopes: splitNonEmpty(st.p("scope")), Audience: splitNonEmpty(st.p("aud")), ReqAt: r.now()})
-	g.OpenID = false
+	g.OpenID = has(g.Scopes, "openid")
 	at, rt, id := r.recordTokenResponse(res, g, 0, "password", cs)
+	if at != nil {
+		// the subject of a password grant is assigned by the application's user store: learn it from the first introspection
+		if active, ar := r.introspectCred(at); active && ar != nil {
+			g.Subject = ar.GetSession().GetSubject()
+		}
+	}
 	r.logf("   grant %d issued %s", g.N, credNames(at, rt, id))
 	r.checkTokenResponse("password", g, cs, res, at, rt, id, nil)
 	r.checkConfinement("password", cs, g, desc)
